@@ -10,6 +10,8 @@ class LTLExplainer(LtlAstVisitor):
 
     def explain(self, spec):
         self.spec = spec
+        # explanations of an earlier evaluation must not survive into this one
+        self.explanations = dict()
         for spec in self.spec.specs:
             top_signal = self.spec.results[spec]
             if top_signal[0] < 0:
